@@ -1,9 +1,14 @@
 package interp
 
-import "os"
+import (
+	"crypto/sha256"
+	"os"
+)
 
 func newCoopSched(m *machine, i *interpreter) scheduler {
 	panic(engineError("cooperative scheduler not built"))
 }
 
 var debugProgress = os.Getenv("SYMGO_PROGRESS") != ""
+
+func sha256Sum(b []byte) [32]byte { return sha256.Sum256(b) }
